@@ -2699,7 +2699,12 @@ open PtaSpec
         often … to how many architectures" are statements about the history machine now ((0), conjuncts 18–25).  What
         the machine does NOT contain: (a) BUILDER calls interleaved with applications on the same object (a history
         is a list of `assert_applies` events on finished objects; `Rule` chains continued after an application,
-        `DiagramRule.from_file` between applications — the latter only as the one-shot statements of C13 / C16);
+        `DiagramRule.from_file` between applications — the latter only as the one-shot statements of C13 / C16).
+        For `Rule` objects this is treated in `Props/C15Build.lean` (not conjoined here): the conjecture that applications are
+        transparent for later builder calls is REFUTED (`Pta.C15.ApplicationsTransparent_Statement_false`,
+        `apply_changes_later_calls_counterexample_six`: an application of a still incomplete `anything` rule rewrites the
+        object — open finding F-C15c, replayed on the library), and proved under `syncAtUnsafe`
+        (`Pta.C15.applications_transparent_sync`, `applications_transparent_no_rewrite`);
         (b) two slots ALIASING one Python object (slots are values: a call on slot `i` rewrites slot `i` only; by
         conjunct 19 an alias could not change an outcome, since the rewritten object is equivalent to the original,
         but the aliasing itself is not modelled); (c) that the model's functions cannot touch the graph is true by
